@@ -55,6 +55,13 @@ def apply_policy(h, tentative, latest):
         if is_int(tentative) and tentative % 2 == 0:
             return DECLINE
         return K
+    if kind == "eq":
+        # a value that compares equal to the tentative one but is not the same value
+        if is_int(tentative):
+            return float(tentative)
+        if isinstance(tentative, bool):
+            return int(tentative)
+        return K
     raise ValueError(h)
 
 
@@ -254,25 +261,48 @@ def check_chain(roots, target_fn, chains, delivery, rec=None):
     from vlib import treegen as T
 
     def sel_ir(chain, alias):
-        node = G.CallN(chain[-1], None, (G.Cap("u", alias, None, None, "=", 1),), ())
-        for fn in reversed(chain[:-1]):
-            node = G.CallN(fn, None, (), (node,))
+        node = G.CallN(_lv(chain[-1])[0], None, (G.Cap("u", alias, None, None, "=", 1),), ())
+        for j, lv in enumerate(reversed(chain[:-1])):
+            fn, cond = _lv(lv)
+            caps = ()
+            if cond is not None:
+                caps = (G.Cap(cond[0], f"{alias}q{j}", None, ("sym", cond[1]), "~", 0),)
+            node = G.CallN(fn, None, caps, (node,))
         return node
+
+    def conds_hold(ir, emb, idx):
+        for call, act in zip(M.focus_path(ir), emb):
+            for c in call.caps:
+                if c.value is None:
+                    continue
+                j = next((j for j in range(idx, -1, -1)
+                          if trace.binds[j].act is act and trace.binds[j].var == c.name), None)
+                # an enclosing activation of the target function holds the *substituted* value
+                if j is None or not PREDS[c.value[1]](eff.get(j, trace.binds[j].value)):
+                    return False
+        return True
+
+    eff = {}
 
     irs = [sel_ir(c, f"k{i}") for i, (c, K) in enumerate(chains)]
     trace = M.simulate(roots)
     expected = []
     n_multi = 0
-    for b in trace.binds:
+    n_cond_false = 0
+    for idx, b in enumerate(trace.binds):
         if b.var != "u" or b.act.fn != target_fn:
             continue
         val = b.value
         app = 0
         for ir, (c, K) in zip(irs, chains):
-            if M.embeddings(M.focus_path(ir), b.act):
+            embs = M.embeddings(M.focus_path(ir), b.act)
+            if any(conds_hold(ir, emb, idx) for emb in embs):
                 val = K
                 app += 1
+            elif embs:
+                n_cond_false += 1
         n_multi += app >= 2
+        eff[idx] = val
         expected.append(val)
     plain_ir = sel_ir([target_fn], "p0")
     sink = None
@@ -280,7 +310,7 @@ def check_chain(roots, target_fn, chains, delivery, rec=None):
         with ExitStack() as stack:
             if delivery == "probe":
                 F.DISPATCH.update(F.RAW)
-                env = T.env()
+                env = dict(T.env(), **PREDS)
                 for ir, (c, K) in zip(irs, chains):
                     p = probing(G.canonical(ir), env=env, overridable=True)
                     p.override(K)
@@ -291,7 +321,7 @@ def check_chain(roots, target_fn, chains, delivery, rec=None):
             else:
                 tf = T.tooled_family()
                 F.DISPATCH.update(tf)
-                env = dict(tf)
+                env = dict(tf, **PREDS)
                 for ir, (c, K) in zip(irs, chains):
                     stack.enter_context(Overlay.tweaking({ptera.select(G.canonical(ir), env=env): K}))
                 got = []
@@ -312,14 +342,30 @@ def check_chain(roots, target_fn, chains, delivery, rec=None):
     if got != expected:
         raise PropertyViolation(
             "precedence",
-            f"plan {T.plan_brief(roots)}; overrides in activation order {[(' > '.join(c) + ' > u', K) for c, K in chains]} "
+            f"plan {T.plan_brief(roots)}; overrides in activation order {[(G.canonical(ir), K) for ir, (c, K) in zip(irs, chains)]} "
             f"({delivery}): plain probe saw {got}, expected {expected} (most recently activated matching override wins)",
         )
     if rec is not None:
-        rec.case(h64(repr((roots, target_fn, chains, delivery))), n_multi > 0,
-                 {"chain-mode", "delivery:" + delivery} | ({"multi"} if n_multi else set()),
-                 sample=lambda: {"plan": T.plan_brief(roots), "overrides": [(" > ".join(c) + " > u", K) for c, K in chains],
+        rec.case(h64(repr((roots, target_fn, chains, delivery))), n_multi > 0 or n_cond_false > 0,
+                 {"chain-mode", "delivery:" + delivery} | ({"multi"} if n_multi else set())
+                 | ({"inner-condition-false"} if n_cond_false else set()),
+                 sample=lambda: {"plan": T.plan_brief(roots), "overrides": [(G.canonical(ir), K) for ir, (c, K) in zip(irs, chains)],
                                  "delivery": delivery, "seen": expected[:6]})
+
+
+# value conditions usable on the non-focus levels of a chain (values are node_id * 10 + k)
+PREDS = {
+    "P0": lambda v: (v // 10) % 2 == 0,
+    "P1": lambda v: (v // 10) % 3 != 0,
+    "P2": lambda v: v % 10 in (1, 5),  # still holding its entry value
+}
+
+
+def _lv(x):
+    """chain level: 'fa' or ['fa', [var, pred]] -> (fn, cond)"""
+    if isinstance(x, str):
+        return x, None
+    return x[0], (tuple(x[1]) if x[1] is not None else None)
 
 
 _FAM = None
@@ -382,7 +428,7 @@ def strategy():
         handlers = []
         n = draw(st.integers(1, 3))
         for i in range(n):
-            kind = draw(st.sampled_from(["const", "fn", "ctx", "cond", "cond", "plain"]))
+            kind = draw(st.sampled_from(["const", "fn", "ctx", "cond", "cond", "eq", "plain"]))
             if kind == "ctx" and not ctx_pool:
                 kind = "fn"
             if kind == "plain":
@@ -411,7 +457,15 @@ def chain_strategy():
         chains = []
         for i in range(draw(st.integers(2, 3))):
             depth = draw(st.integers(0, 2))
-            chain = [draw(st.sampled_from(fns)) for _ in range(depth)] + [target]
+            chain = []
+            for _ in range(depth):
+                fn = draw(st.sampled_from(fns))
+                if draw(st.integers(0, 2)) == 0:
+                    # a value condition on an enclosing call only
+                    chain.append([fn, [draw(st.sampled_from(["u", "w"])), draw(st.sampled_from(sorted(PREDS)))]])
+                else:
+                    chain.append(fn)
+            chain.append(target)
             chains.append((chain, 1000 + i))
         return roots, target, chains, draw(st.sampled_from(["probe", "overlay"]))
 
